@@ -457,6 +457,33 @@ func init() {
 	reg("strings.Clone", clone)
 	reg("strconv.cloneString", clone)
 
+	// ---- strings.Split with a one-byte separator: fork on which bytes are separators
+	reg("strings.Split", func(in *Interp, fr *frame, fn *ssa.Function, args []Value) Value {
+		s, sep := args[0].(Str), args[1].(Str)
+		if s.opaque || sep.opaque || len(sep.b) != 1 {
+			if cs, ok := s.concrete(); ok {
+				if cp, ok2 := sep.concrete(); ok2 {
+					var out []Value
+					for _, part := range strings.Split(cs, cp) {
+						out = append(out, in.mkStr(part))
+					}
+					return out
+				}
+			}
+			in.unsupported("strings.Split with a symbolic multi-byte separator")
+		}
+		out := []Value{}
+		start := 0
+		for i, b := range s.b {
+			if in.branch(in.tb.Eq(b, sep.b[0])) {
+				out = append(out, Str{b: s.b[start:i]})
+				start = i + 1
+			}
+		}
+		out = append(out, Str{b: s.b[start:]})
+		return out
+	})
+
 	// ---- sort.Slice family: insertion sort calling the real less closure
 	sortSlice := func(in *Interp, fr *frame, fn *ssa.Function, args []Value) Value {
 		itf := args[0].(Iface)
